@@ -40,7 +40,7 @@ LEVEL = {
 
 NOT_APPLICABLE = {}
 
-TRUST = ' Trusted: Lean kernel, Mathlib, translator + PyR reading of the primitives (validated bitwise against the real code on every run).'
+TRUST = ' Trusted: Lean kernel, Mathlib, translator (incl. its AST normalisation, translator/astnorm.py) + PyR reading of the primitives (validated bitwise against the real code on every run).'
 
 LEVEL['C01'] = dict(
     technique='Lean 4 theorems over the regenerated real-number model (Krüger α series = independently derived reference by ring, conformal latitude / Gauss–Schreiber identities, zone selection, validation logic; on the sphere the conversion is proved to be the exact spherical transverse Mercator) + bitwise translator validation',
